@@ -56,15 +56,63 @@ type gconn struct {
 	relayClosed bool
 	readEnded   bool
 	fault       string
+	// read deadline set by the relay (SetReadDeadline) and the behaviour's scripted clock: the
+	// conn's "now" is time.Now()+*skew; a deadline in the past fails every Read with a timeout
+	deadline time.Time
+	skew     *time.Duration
+}
+
+type timeoutErr struct{}
+
+func (timeoutErr) Error() string   { return "scripted: i/o timeout" }
+func (timeoutErr) Timeout() bool   { return true }
+func (timeoutErr) Temporary() bool { return true }
+
+// SetReadDeadline makes the scripted conns deadline-capable like a net.Conn (conns handed to the
+// relay directly; the iocopy adapter does not forward it).
+func (c *gconn) SetReadDeadline(t time.Time) error {
+	c.mu.Lock()
+	defer c.mu.Unlock()
+	c.deadline = t
+	if !t.IsZero() {
+		c.rec.add(fw.Event{"ev": "RelayDeadline", "e": c.name, "inMs": time.Until(t).Milliseconds()})
+	}
+	c.cond.Broadcast()
+	return nil
+}
+
+func (c *gconn) expired() bool {
+	if c.deadline.IsZero() || c.skew == nil {
+		return false
+	}
+	return !time.Now().Add(*c.skew).Before(c.deadline)
+}
+
+// advance moves the scripted clock of both conns (they share skew) and wakes blocked Reads.
+func advance(d time.Duration, conns ...*gconn) {
+	for _, c := range conns {
+		c.mu.Lock()
+	}
+	*conns[0].skew += d
+	for _, c := range conns {
+		c.cond.Broadcast()
+		c.mu.Unlock()
+	}
 }
 
 func newGconn(name string, rec *recorder, g *gate, unit int) *gconn {
-	c := &gconn{name: name, rec: rec, g: g, unit: unit, wr: "open"}
+	c := &gconn{name: name, rec: rec, g: g, unit: unit, wr: "open", skew: new(time.Duration)}
 	c.cond = sync.NewCond(&c.mu)
 	return c
 }
 
 func (c *gconn) readEnd(kind string) {
+	if kind == "timeout" {
+		// may happen more than once; it ends the direction like an error
+		c.rec.add(fw.Event{"ev": "ReadEnd", "d": c.name + otherEnd(c.name), "kind": kind})
+		c.readEnded = true
+		return
+	}
 	if !c.readEnded {
 		c.readEnded = true
 		c.rec.add(fw.Event{"ev": "ReadEnd", "d": c.name + otherEnd(c.name), "kind": kind})
@@ -103,6 +151,9 @@ func (c *gconn) Read(p []byte) (int, error) {
 		switch {
 		case c.relayClosed:
 			return 0, errClosed
+		case c.expired():
+			c.readEnd("timeout")
+			return 0, timeoutErr{}
 		case c.wr == "err":
 			c.readEnd("err")
 			return 0, errReset
@@ -266,6 +317,30 @@ func (c *gconn) kill() {
 	c.mu.Unlock()
 }
 
+// flow keeps traffic going on every direction that is still live while (scripted) time passes:
+// `steps` times { the clock advances by one second; every endpoint that is still open sends a
+// unit; wait until it has arrived }.  A relay must deliver all of it - idle time-outs are never
+// hit (there is traffic every second), an absolute deadline armed earlier is.
+func flow(steps, unit int, a, b *gconn) {
+	eps := map[string]endpoint{"A": a, "B": b}
+	for i := 0; i < steps; i++ {
+		advance(time.Second, a, b)
+		sent := false
+		for _, c := range []*gconn{a, b} {
+			if c.isOpen() {
+				c.send(unit)
+				sent = true
+			}
+		}
+		if !sent {
+			return
+		}
+		if !settleFor(eps, 500*time.Millisecond) {
+			return // not arriving any more (the judge will see what was sent and not delivered)
+		}
+	}
+}
+
 // ---- gated replay of a TLC behaviour (spec/Relay.tla, BNext) ---------------------------------
 type bstep struct {
 	A   string `json:"a"`
@@ -281,6 +356,7 @@ type bidiSpec struct {
 	Kind  string  `json:"kind"`
 	Via   string  `json:"via"`
 	Unit  int     `json:"unit"`
+	Flow  int     `json:"flow,omitempty"` // completion: this many seconds of scripted time with continued traffic first
 	Steps []bstep `json:"steps"`
 }
 
@@ -291,6 +367,7 @@ func driveBidi(env *fw.Env, sp bidiSpec) *fw.Trace {
 	rec := &recorder{}
 	g := newGate("A.Read", "A.Write", "A.CloseWrite", "B.Read", "B.Write", "B.CloseWrite")
 	conns := map[string]*gconn{"A": newGconn("A", rec, g, sp.Unit), "B": newGconn("B", rec, g, sp.Unit)}
+	conns["B"].skew = conns["A"].skew
 	shA, shB := sp.Steps[0].ShA, sp.Steps[0].ShB
 	cw := map[string]bool{"A": halfCloseReaches(shA), "B": halfCloseReaches(shB)}
 	rec.add(fw.Event{"ev": "BStart", "conn": "fake", "via": sp.Via, "shA": shA, "shB": shB})
@@ -342,6 +419,10 @@ func driveBidi(env *fw.Env, sp bidiSpec) *fw.Trace {
 	}
 	// completion: both endpoints finish sending (gently: half-close), the relay runs freely
 	if ret == nil {
+		if sp.Flow > 0 {
+			g.free()
+			flow(sp.Flow, sp.Unit, conns["A"], conns["B"])
+		}
 		for _, e := range []string{"A", "B"} {
 			if conns[e].isOpen() {
 				conns[e].end("halfclose")
@@ -374,7 +455,7 @@ func driveBidi(env *fw.Env, sp bidiSpec) *fw.Trace {
 // ---- free-running scripts on scripted conns ("bfree") and on real loopback TCP ("tcp") ----------
 type sop struct {
 	E  string `json:"e,omitempty"`
-	Op string `json:"op"` // send | halfclose | close | error | settle
+	Op string `json:"op"` // send | halfclose | close | error | settle | flow (N seconds of scripted time with traffic)
 	N  int    `json:"n,omitempty"`
 }
 
@@ -400,8 +481,10 @@ func (c *gconn) progress() (int, int, bool, bool) {
 }
 
 // settle waits (bounded) until everything sent towards a still-reading endpoint has arrived.
-func settle(eps map[string]endpoint) bool {
-	deadline := time.Now().Add(2 * time.Second)
+func settle(eps map[string]endpoint) bool { return settleFor(eps, 2*time.Second) }
+
+func settleFor(eps map[string]endpoint, max time.Duration) bool {
+	deadline := time.Now().Add(max)
 	for time.Now().Before(deadline) {
 		okAll := true
 		for _, e := range []string{"A", "B"} {
@@ -427,6 +510,12 @@ var errUnsettled = fw.Event{"ev": "unsettled"}
 func runScript(sp scriptSpec, rec *recorder, eps map[string]endpoint, done <-chan fw.Event) fw.Event {
 	for _, o := range sp.Ops {
 		switch o.Op {
+		case "flow":
+			a, okA := eps["A"].(*gconn)
+			b, okB := eps["B"].(*gconn)
+			if okA && okB {
+				flow(o.N, 1000, a, b)
+			}
 		case "send":
 			eps[o.E].send(o.N)
 		case "settle":
@@ -456,6 +545,7 @@ func driveFree(env *fw.Env, sp scriptSpec) *fw.Trace {
 	g := newGate()
 	g.free()
 	a, b := newGconn("A", rec, g, 1), newGconn("B", rec, g, 1)
+	b.skew = a.skew
 	rec.add(fw.Event{"ev": "BStart", "conn": "fake", "via": sp.Via, "shA": sp.ShA, "shB": sp.ShB})
 	done, cleanup := startRelay(sp.Via, "tcp", shaped(a, sp.ShA), shaped(b, sp.ShB))
 	ret := runScript(sp, rec, map[string]endpoint{"A": a, "B": b}, done)
